@@ -118,4 +118,146 @@ theorem maxReach_is_max (c : List CigarOp) : ∀ pos,
       · exact ⟨k + 1, by simp only [List.take_succ_cons, posAfter]; exact hk⟩
       · exact ⟨0, rfl⟩
 
+/-! ### Cigar.IsValid: the loop equals the declarative validity conditions -/
+
+/-- operation type at index `i` of the CIGAR, if any -/
+def typAt (c : List CigarOp) (i : Nat) : Option Nat := (c[i]?).map (·.typ)
+
+/-- SAM §1.4.6: `H` can only be present as the first and/or last operation -/
+def HCond (c : List CigarOp) (i : Nat) : Prop :=
+  typAt c i = some typH → i = 0 ∨ i = c.length - 1
+
+/-- `S` may only have `H` operations between it and the ends of the CIGAR string
+(as the library reads it: an inner `S` must be adjacent to an `H`) -/
+def SCond (c : List CigarOp) (i : Nat) : Prop :=
+  typAt c i = some typS → i = 0 ∨ i = c.length - 1 ∨ typAt c (i - 1) = some typH ∨ typAt c (i + 1) = some typH
+
+theorem typAt_mid (pre : List CigarOp) (co : CigarOp) (rest : List CigarOp) :
+    typAt (pre ++ co :: rest) pre.length = some co.typ := by
+  simp [typAt]
+
+theorem typAt_next (pre : List CigarOp) (co : CigarOp) (rest : List CigarOp) :
+    typAt (pre ++ co :: rest) (pre.length + 1) = rest.head?.map (·.typ) := by
+  unfold typAt
+  rw [List.getElem?_append_right (by omega)]
+  have : pre.length + 1 - pre.length = 1 := by omega
+  rw [this]
+  cases rest <;> simp
+
+theorem typAt_prev (pre : List CigarOp) (co : CigarOp) (rest : List CigarOp) (h : pre ≠ []) :
+    typAt (pre ++ co :: rest) (pre.length - 1) = pre.getLast?.map (·.typ) := by
+  unfold typAt
+  have hl : 0 < pre.length := List.length_pos_iff.mpr h
+  rw [List.getElem?_append_left (by omega)]
+  rw [List.getLast?_eq_getElem?]
+
+theorem isValidLoop_spec (suf : List CigarOp) : ∀ (pre : List CigarOp) (pos length : Int), 0 ≤ pos →
+    (∀ co, co ∈ pre ++ suf → co.typ ≤ 8) →
+    ∃ b, isValidLoop (pre ++ suf).length pre.length pre.getLast? pos length suf = some b ∧
+      (b = true ↔ (∀ j, pre.length ≤ j → HCond (pre ++ suf) j ∧ SCond (pre ++ suf) j) ∧ length = queryLen suf) := by
+  induction suf with
+  | nil =>
+    intro pre pos length _ _
+    refine ⟨length == 0, by simp [isValidLoop], ?_⟩
+    simp only [beq_iff_eq, List.append_nil, queryLen]
+    have hall : ∀ j, pre.length ≤ j → HCond pre j ∧ SCond pre j := by
+      intro j hj
+      have : typAt pre j = none := by
+        unfold typAt; rw [List.getElem?_eq_none (by omega)]; rfl
+      simp [HCond, SCond, this]
+    exact ⟨fun h => ⟨hall, h⟩, fun h => h.2⟩
+  | cons co rest ih =>
+    intro pre pos length hpos hstd
+    have hco : co.typ ≤ 8 := hstd co (by simp)
+    have hcons := consumes_spec co.typ (by omega)
+    have hmid := typAt_mid pre co rest
+    have hnext := typAt_next pre co rest
+    have hprev := typAt_prev pre co rest
+    have hassoc : (pre ++ [co]) ++ rest = pre ++ co :: rest := by simp
+    generalize hc : pre ++ co :: rest = c at *
+    unfold isValidLoop
+    simp only []
+    by_cases hH : co.typ = typH ∧ (pre.length ≠ 0 ∧ pre.length ≠ c.length - 1)
+    · -- inner H: rejected
+      rw [if_pos hH]
+      refine ⟨false, rfl, ?_⟩
+      simp only [Bool.false_eq_true, false_iff, not_and]
+      intro hall
+      exfalso
+      have := (hall pre.length (Nat.le_refl _)).1
+      unfold HCond at this
+      rw [hmid, hH.1] at this
+      rcases this rfl with h | h
+      · exact hH.2.1 h
+      · exact hH.2.2 h
+    · rw [if_neg hH]
+      by_cases hS : co.typ = typS ∧ (pre.length ≠ 0 ∧ pre.length ≠ c.length - 1) ∧
+          (pre.getLast?.map (·.typ)) ≠ some typH ∧ (rest.head?.map (·.typ)) ≠ some typH
+      · rw [if_pos hS]
+        refine ⟨false, rfl, ?_⟩
+        simp only [Bool.false_eq_true, false_iff, not_and]
+        intro hall
+        exfalso
+        have := (hall pre.length (Nat.le_refl _)).2
+        unfold SCond at this
+        rw [hmid, hS.1] at this
+        have hpre : pre ≠ [] := by
+          intro h; exact hS.2.1.1 (by simp [h])
+        rcases this rfl with h | h | h | h
+        · exact hS.2.1.1 h
+        · exact hS.2.1.2 h
+        · rw [hprev hpre] at h; exact hS.2.2.1 h
+        · rw [hnext] at h; exact hS.2.2.2 h
+      · rw [if_neg hS, hcons]
+        simp only []
+        have hq : ¬ (pos < 0 ∧ (if queryConsuming co.typ = true then (1 : Int) else 0) ≠ 0) := by omega
+        rw [if_neg hq]
+        have hpos' : 0 ≤ pos + (co.len : Int) * (if refConsuming co.typ = true then 1 else if co.typ = 9 then -1 else 0) := by
+          have : co.typ ≠ 9 := by omega
+          simp only [this, if_false]
+          split <;> omega
+        obtain ⟨b, hb, hiff⟩ := ih (pre ++ [co]) _ (length - (co.len : Int) * (if queryConsuming co.typ = true then 1 else 0))
+          hpos' (by rw [hassoc]; exact hstd)
+        rw [hassoc] at hb hiff
+        have hl1 : (pre ++ [co]).length = pre.length + 1 := by simp
+        have hg : (pre ++ [co]).getLast? = some co := by simp
+        rw [hl1, hg] at hb
+        rw [hl1] at hiff
+        refine ⟨b, hb, ?_⟩
+        rw [hiff]
+        -- the conditions at index pre.length hold (no early exit)
+        have hHere : HCond c pre.length := by
+          intro ht
+          rw [hmid] at ht
+          have : co.typ = typH := by injection ht
+          by_cases h0 : pre.length = 0
+          · exact Or.inl h0
+          · by_cases h1 : pre.length = c.length - 1
+            · exact Or.inr h1
+            · exact absurd ⟨this, h0, h1⟩ hH
+        have hSere : SCond c pre.length := by
+          intro ht
+          rw [hmid] at ht
+          have hts : co.typ = typS := by injection ht
+          by_cases h0 : pre.length = 0
+          · exact Or.inl h0
+          · by_cases h1 : pre.length = c.length - 1
+            · exact Or.inr (Or.inl h1)
+            · have hpre : pre ≠ [] := by intro h; exact h0 (by simp [h])
+              by_cases hp : (pre.getLast?.map (·.typ)) = some typH
+              · exact Or.inr (Or.inr (Or.inl (by rw [hprev hpre]; exact hp)))
+              · by_cases hn : (rest.head?.map (·.typ)) = some typH
+                · exact Or.inr (Or.inr (Or.inr (by rw [hnext]; exact hn)))
+                · exact absurd ⟨hts, ⟨h0, h1⟩, hp, hn⟩ hS
+        rw [queryLen_cons]
+        constructor
+        · rintro ⟨hall, hlenq⟩
+          refine ⟨?_, by split at hlenq <;> split <;> simp_all <;> omega⟩
+          intro j hj
+          by_cases hje : j = pre.length
+          · subst hje; exact ⟨hHere, hSere⟩
+          · exact hall j (by omega)
+        · rintro ⟨hall, hlenq⟩
+          refine ⟨fun j hj => hall j (by omega), by split at hlenq <;> split <;> simp_all <;> omega⟩
+
 end Hts.Model.Coord
